@@ -11,6 +11,7 @@ import (
 	"sort"
 	"strings"
 	"sync"
+	"sync/atomic"
 
 	"golang.org/x/tools/go/ssa"
 )
@@ -131,6 +132,7 @@ func (w *World) verifyFunction(key string, fc *FuncContract, mode Mode) (res *Fu
 	}
 	e := w.newEng(mode)
 	e.fn, e.fc = fn, fc
+	e.weakB2I = fc != nil && fc.Options["weakb2i"]
 	defer func() {
 		if r := recover(); r != nil {
 			res.Err = fmt.Errorf("engine: %v\n%s", r, debug.Stack())
@@ -259,7 +261,7 @@ func (w *World) verifyFunction(key string, fc *FuncContract, mode Mode) (res *Fu
 			f.frameObligations("frame", r.reach, f.entrySt, r.st, items, "alloc0")
 		}
 		// vacuity guard: the return must be reachable under the assumptions
-		ro := &Obligation{Name: fmt.Sprintf("%s#reach:return#%d", key, r.ord), Func: key, Kind: "reach", Mode: mode, Reach: r.reach, Goal: "false", prelude: e.pre}
+		ro := &Obligation{Name: fmt.Sprintf("%s#reach:return#%d", key, r.ord), Func: key, Kind: "reach", Mode: mode, Reach: r.reach, Goal: "false", prelude: e.pre, weakB2I: e.weakB2I}
 		ro.snap()
 		res.ReachChecks = append(res.ReachChecks, ro)
 	}
@@ -367,13 +369,10 @@ func selectIndices(text string, arrSyms map[string]bool, aliases map[string]stri
 			key := ""
 			if arr.atom != "" {
 				ok = arrSyms[arr.atom]
-				key = arr.atom
-				if a, has := aliases[key]; has {
-					key = a
-				}
+				key = findKey(aliases, arr.atom)
 			} else if len(arr.kids) == 3 && arr.kids[0].atom == "select" {
 				ok = true
-				key = text[arr.kids[2].s:arr.kids[2].e]
+				key = findKey(aliases, text[arr.kids[2].s:arr.kids[2].e])
 			}
 			if ok {
 				res = append(res, readTerm{key, text[n.kids[2].s:n.kids[2].e]})
@@ -411,6 +410,20 @@ func (o *Obligation) buildQuery(stage string, idxSort string) string {
 	p := o.prelude
 	var b strings.Builder
 	b.WriteString("(set-option :produce-models true)\n(set-logic ALL)\n")
+	if o.Mode == ModeInt {
+		if o.weakB2I {
+			b.WriteString(`(declare-fun b2i ((_ BitVec 8)) Int)
+(assert (forall ((x (_ BitVec 8))) (! (and (<= 0 (b2i x)) (<= (b2i x) 255) (= (bvuge x #x80) (>= (b2i x) 128))) :pattern ((b2i x)))))
+(assert (forall ((x (_ BitVec 8))) (! (<= (b2i (bvand x #x7f)) 127) :pattern ((b2i (bvand x #x7f))))))
+(assert (forall ((x (_ BitVec 8))) (! (<= (b2i (bvand x #x0f)) 15) :pattern ((b2i (bvand x #x0f))))))
+`)
+			for v := 0; v < 256; v++ {
+				fmt.Fprintf(&b, "(assert (= (b2i #x%02x) %d))\n", v, v)
+			}
+		} else {
+			b.WriteString("(define-fun b2i ((x (_ BitVec 8))) Int (bv2nat x))\n")
+		}
+	}
 	b.WriteString(specText[o.Mode])
 	// declarations: all of them (later ones are unused but harmless);
 	// assertions, quantified hypotheses and read terms: only the prefix that
@@ -484,9 +497,7 @@ func (o *Obligation) buildQuery(stage string, idxSort string) string {
 					if i := strings.Index(ko, "\x00"); i >= 0 {
 						key, off = ko[:i], ko[i+1:]
 					}
-					if a, has := p.aliases[key]; has {
-						key = a
-					}
+					key = findKey(p.aliases, key)
 					cl := byKey[key]
 					for _, t := range cl[done[key]:snapshot[key]] {
 						inst := idxSub(t, off, idxSort)
@@ -555,7 +566,24 @@ func discharge(obls []*Obligation, cfg dischargeCfg) {
 	wg.Wait()
 }
 
+var solverErrors int32
+
 func dischargeOne(o *Obligation, cfg dischargeCfg) {
+	if atomic.LoadInt32(&solverErrors) >= 3 {
+		o.Status = "error"
+		return
+	}
+	defer func() {
+		allErr := len(o.Answers) > 0
+		for _, a := range o.Answers {
+			if a != "error" {
+				allErr = false
+			}
+		}
+		if allErr {
+			atomic.AddInt32(&solverErrors, 1)
+		}
+	}()
 	idx := cfg.idxSortOf(o.Mode)
 	try := func(stage string, timeout int) SolverResult {
 		q := o.buildQuery(stage, idx)
